@@ -186,59 +186,48 @@ def deliver (cfg : Cfg) (rq : Request) (resFlags : Option Nat) (observe : Bool) 
   post cfg rq resFlags observe (noResponse cfg rq resFlags r)
 
 /-! ### handle_request -/
-/-- where a block of handle_request() leaves: `resp = …; goto fail_response` (with the value `resource` has at that point:
-none = NULL, some flags), `return`, or falling through with what it computed -/
-inductive Jump where
-  | fail (resp : Nat) (resource : Option Nat)
-  | ret
-  | go (isProxy : Bool) (os : Opts) (path : Bytes)
-  deriving DecidableEq, Repr
+/- where a block of handle_request() leaves is a `Pre` (Spec/Server.lean, vocabulary): `.fail resp resource` is
+   `resp = …; goto fail_response` with the value `resource` has at that point (none = NULL, some flags), `.ignore` is
+   `return`, `.go` is falling through with what the block computed -/
+abbrev Jump := Pre
+
+/-- `uri_path = coap_get_uri_path(pdu); if (!uri_path) return;` -/
+def pathBlock (rq : Request) (isProxy : Bool) (os : Opts) : Jump :=
+  if hasOpt os 35 then (match rq.pu with | .ok _ p => .go isProxy os p | _ => .ignore)
+  else .go isProxy os (uriPath os)
+
+/-- `if (!skip_hop_limit_check) { … COAP_OPTION_HOP_LIMIT … }` then the path -/
+def hopBlock (rq : Request) (isProxy skipHop : Bool) (os : Opts) : Jump :=
+  if skipHop then pathBlock rq isProxy os else
+  match firstOpt os 16 with
+  | none => pathBlock rq isProxy os
+  | some v =>
+    let hop := uintOf v % 4294967296
+    if hop = 1 then .fail 168 none
+    else if hop < 1 ∨ hop > 255 then .fail 128 none
+    else pathBlock rq isProxy (setHop (hop - 1) os)
 
 /-- lines "Proxy-Scheme requires Uri-Host" … `uri_path = coap_get_uri_path(pdu)`: proxy options, Hop-Limit, path -/
 def preStage (tbl : Table) (rq : Request) (critOpt : Bool) (os : Opts) : Jump :=
   let m := rq.msg
-  let isProxyScheme := hasOpt os 39
-  if isProxyScheme ∧ ¬ hasOpt os 3 then .fail 130 none else
-  let isProxyUri := hasOpt os 35
-  -- the proxy block: (is_proxy_uri || is_proxy_scheme afterwards, skip_hop_limit_check) or a jump
-  let proxyStage : Jump ⊕ (Bool × Bool) :=
-    if isProxyScheme ∨ isProxyUri then
-      match tbl.prx with
-      | none => .inl (.fail 165 none)
-      | some p =>
-        if 1 ≤ m.code ∧ m.code ≤ 7 ∧ ¬ handlerBit p.mask m.code then .inl (.fail 165 none) else
-        let host : Option Bytes :=
-          if isProxyUri then (match rq.pu with | .ok h _ => some h | _ => none)
-          else some ((firstOpt os 3).getD [])
-        match host with
-        | none => .inl (.fail 165 none)
-        | some h =>
-          -- proxy_name_count = 1
-          if h.length ≠ 0 ∧ (p.name.length = 0 ∨ h = p.name) then
-            if critOpt then .inl (.fail 130 (some p.flags)) else .inr (false, true)
-          else .inr (true, false)
-    else .inr (false, false)
-  match proxyStage with
-  | .inl j => j
-  | .inr (isProxy, skipHop) =>
-  let hopStage : Jump ⊕ Opts :=
-    if skipHop then .inr os else
-    match firstOpt os 16 with
-    | none => .inr os
-    | some v =>
-      let hop := uintOf v % 4294967296
-      if hop = 1 then .inl (.fail 168 none)
-      else if hop < 1 ∨ hop > 255 then .inl (.fail 128 none)
-      else .inr (setHop (hop - 1) os)
-  match hopStage with
-  | .inl j => j
-  | .inr os =>
-  -- coap_get_uri_path
-  let pathOpt : Option Bytes :=
-    if hasOpt os 35 then (match rq.pu with | .ok _ p => some p | _ => none) else some (uriPath os)
-  match pathOpt with
-  | none => .ret
-  | some path => .go isProxy os path
+  if hasOpt os 39 ∧ ¬ hasOpt os 3 then .fail 130 none else
+  if hasOpt os 39 ∨ hasOpt os 35 then
+    match tbl.prx with
+    | none => .fail 165 none
+    | some p =>
+      if 1 ≤ m.code ∧ m.code ≤ 7 ∧ ¬ handlerBit p.mask m.code then .fail 165 none else
+      -- uri.host: from coap_split_proxy_uri (Proxy-Uri) or the Uri-Host option
+      let host : Option Bytes :=
+        if hasOpt os 35 then (match rq.pu with | .ok h _ => some h | _ => none)
+        else some ((firstOpt os 3).getD [])
+      match host with
+      | none => .fail 165 none
+      | some h =>
+        -- proxy_name_count = 1: "this server is hosting the proxy connection endpoint"
+        if h.length ≠ 0 ∧ (p.name.length = 0 ∨ h = p.name) then
+          if critOpt then .fail 130 (some p.flags) else hopBlock rq false true os
+        else hopBlock rq true false os
+  else hopBlock rq false false os
 
 /-- "try to find the resource from the request URI" … the selection cascade; inl = `resp` of `goto fail_response` -/
 def selectStage (tbl : Table) (code : Nat) (isProxy : Bool) (path : Bytes) : Nat ⊕ Sel :=
@@ -267,25 +256,22 @@ def checkStage (cfg : Cfg) (rq : Request) (os : Opts) (sel : Sel) : Option Nat :
   if rq.msg.code = 5 ∧ ¬ hasOpt os 12 then some 143 else
   if cfg.mpr ∧ ¬ flag sel.flags F_HAS_MCAST ∧ rq.mcast then some 133 else none
 
-/-- `response = coap_pdu_init(...)` … the end of handle_request() -/
-def runStage (cfg : Cfg) (rq : Request) (os : Opts) (path : Bytes) (sel : Sel) : Outcome :=
+/-- "check for Observe option" … coap_add_observer: none = `response->code = 4.00; goto skip_handler` (Block2 NUM ≠ 0 in
+a registration), else the response so far (Observe option added for a registration; resource->observe starts at 2) -/
+def obsStage (os : Opts) (observe : Bool) (resp0 : Reply) : Option Reply :=
+  if observe then
+    let action := uintOf ((firstOpt os 6).getD []) % 4294967296
+    if action = 0 then
+      match (firstOpt os 23).bind block with
+      | some (num, _, _) => if num ≠ 0 then none else some { resp0 with opts := [(6, [2])] }
+      | none => some { resp0 with opts := [(6, [2])] }
+    else some resp0
+  else some resp0
+
+/-- "send_early_empty_ack" … handler call … skip_handler … the end of handle_request() -/
+def callStage (cfg : Cfg) (rq : Request) (os : Opts) (path : Bytes) (sel : Sel) (observe : Bool) (resp1 : Reply) : Outcome :=
   let m := rq.msg
   let fl := some sel.flags
-  let resp0 : Reply := ⟨.app, respType m.type, 0, m.mid, m.token, [], .bytes []⟩
-  let observe : Bool := sel.observable && (m.code == 1 || m.code == 5) && hasOpt os 6
-  -- observe establish: Block2 with num ≠ 0 → 4.00 without handler; else the Observe option is added
-  let obsStage : Option Reply :=
-    if observe then
-      let action := uintOf ((firstOpt os 6).getD []) % 4294967296
-      if action = 0 then
-        match (firstOpt os 23).bind block with
-        | some (num, _, _) => if num ≠ 0 then none else some { resp0 with opts := [(6, [2])] }
-        | none => some { resp0 with opts := [(6, [2])] }
-      else some resp0
-    else some resp0
-  match obsStage with
-  | none => ⟨true, deliver cfg rq fl observe { resp0 with src := .lib, code := 128 }, none⟩
-  | some resp1 =>
   -- proxy: early empty ACK, the response becomes a separate CON
   let early : Bool := sel.isPrx && m.type == CON
   let pre : List Reply := if early then [emptyMsg ACK m.mid] else []
@@ -298,10 +284,20 @@ def runStage (cfg : Cfg) (rq : Request) (os : Opts) (path : Bytes) (sel : Sel) :
     let call : Call := ⟨who, m.code, path, query os, os, m.payload⟩
     let r : Reply := { resp1 with code := if rq.verdict.code = 0 then resp1.code else rq.verdict.code,
                                   body := .bytes rq.verdict.payload }
+    -- coap_check_code_class(session, response)
     if ¬ inIvs codeOk r.code then ⟨true, pre, some call⟩ else
     let r := if early then { r with type := CON } else r
     if early ∧ r.code = 0 then ⟨true, pre, some call⟩ else
     ⟨true, pre ++ deliver cfg rq fl observe r, some call⟩
+
+/-- `response = coap_pdu_init(...)` … the end of handle_request() -/
+def runStage (cfg : Cfg) (rq : Request) (os : Opts) (path : Bytes) (sel : Sel) : Outcome :=
+  let m := rq.msg
+  let resp0 : Reply := ⟨.app, respType m.type, 0, m.mid, m.token, [], .bytes []⟩
+  let observe : Bool := sel.observable && (m.code == 1 || m.code == 5) && hasOpt os 6
+  match obsStage os observe resp0 with
+  | none => ⟨true, deliver cfg rq (some sel.flags) observe { resp0 with src := .lib, code := 128 }, none⟩
+  | some resp1 => callStage cfg rq os path sel observe resp1
 
 /-- fail_response: coap_new_error_response(pdu, resp, &opt_filter /* empty */) then `goto skip_handler` -/
 def failResponse (cfg : Cfg) (rq : Request) (os : Opts) (resp : Nat) (resource : Option Nat) : Outcome :=
@@ -312,7 +308,7 @@ def handleRequest (cfg : Cfg) (tbl : Table) (rq : Request) (critOpt : Bool) (os 
   -- (no async state on a fresh context)
   match preStage tbl rq critOpt os with
   | .fail resp res => failResponse cfg rq os resp res
-  | .ret => Outcome.nothing
+  | .ignore => Outcome.nothing
   | .go isProxy os' path =>
     match selectStage tbl rq.msg.code isProxy path with
     | .inl resp => failResponse cfg rq os' resp none
